@@ -8,6 +8,7 @@ import (
 	"path/filepath"
 	"regexp"
 	"sort"
+	"strings"
 
 	"github.com/JunNishimura/Goit/internal/object"
 	"github.com/JunNishimura/Goit/internal/sha"
@@ -116,9 +117,10 @@ func (idx *Index) GetEntry(path []byte) (int, *Entry, bool) {
 func (idx *Index) GetEntriesByDirectory(dirName string) []*Entry {
 	var entries []*Entry
 
-	dirRegexp := regexp.MustCompile(fmt.Sprintf(`%s\/.+`, dirName))
+	// entries beneath the directory are exactly those whose path starts with "<dirName>/"
+	prefix := dirName + "/"
 	for _, entry := range idx.Entries {
-		if dirRegexp.Match(entry.Path) {
+		if len(entry.Path) > len(prefix) && strings.HasPrefix(string(entry.Path), prefix) {
 			entries = append(entries, entry)
 		}
 	}
